@@ -25,6 +25,7 @@ def main():
     ap.add_argument("--tier", default="quick")
     ap.add_argument("--seed", default="1")
     ap.add_argument("--keep", action="store_true")
+    ap.add_argument("--opt", action="append", default=[], help="passed through to ./check (e.g. --opt only=ops)")
     ap.add_argument("--expect-clean", action="store_true", help="expect exit 0 (e.g. a fix patch)")
     a = ap.parse_args()
     patch = os.path.abspath(a.patch)
@@ -44,7 +45,7 @@ def main():
         env["VERIF_REPO"] = wt
         env["VERIF_SEED"] = a.seed
         for chk in a.checks.split(","):
-            p = subprocess.run([os.path.join(VERIF, "check"), chk, "--tier", a.tier], env=env, capture_output=True, text=True, cwd=VERIF)
+            p = subprocess.run([os.path.join(VERIF, "check"), chk, "--tier", a.tier] + [x for o in a.opt for x in ("--opt", o)], env=env, capture_output=True, text=True, cwd=VERIF)
             out = p.stdout
             viol = [l for l in out.splitlines() if l.startswith("VIOLATION")]
             keys = [l.strip() for l in out.splitlines() if l.strip().startswith("key=")]
